@@ -29,6 +29,9 @@ import (
 type AuthIp struct {
 	path string
 	name string
+
+	// listed the addresses put into IpMap by the previous successful load
+	listed []string
 }
 
 var IpMap ipMap
@@ -118,10 +121,26 @@ func (a *AuthIp) parseAuthIp() error {
 		return nil
 	}
 
+	// addresses that are no longer in the file stop being admitted
+	for _, ip := range a.listed {
+		if !contains(auth.IpList, ip) {
+			IpMap.Del(ip)
+		}
+	}
 	for _, ip := range auth.IpList {
 		if !IpMap.Insert(ip, struct{}{}) {
 			logging.Debugf("set ip %s", ip)
 		}
 	}
+	a.listed = auth.IpList
 	return nil
+}
+
+func contains(list []string, s string) bool {
+	for _, v := range list {
+		if v == s {
+			return true
+		}
+	}
+	return false
 }
